@@ -15,7 +15,7 @@ def _strings(t, rng, tier, valid):
     """Byte strings to try against one type."""
     out = [b""]
     out += [bytes([x]) for x in range(256)]
-    n2 = 600 if tier == "quick" else 2500
+    n2 = 600 if tier == "quick" else 1500
     out += [bytes([rng.randrange(256), rng.randrange(256)]) for _ in range(n2)]
     out += [bytes([a, b]) for a in (0, 1, 2, 3, 255) for b in (0, 1, 2, 3, 4, 128, 255)]
     for v in valid:
@@ -27,7 +27,7 @@ def _strings(t, rng, tier, valid):
         out.append(v + b"\xff")
         out.append(v + bytes(rng.randrange(256) for _ in range(rng.randrange(1, 5))))   # followed by junk
         out.append(v + b"\x00" * 5)
-    for _ in range(40 if tier == "quick" else 400):
+    for _ in range(40 if tier == "quick" else 200):
         out.append(bytes(rng.randrange(256) for _ in range(rng.randrange(3, 17))))
     for s in list(out[:300]):
         out.append(s + b"\x00")                            # zero extension
@@ -219,7 +219,7 @@ def run(ctx):
             types.append((tlaval.to_json(st["case"]["ty"]), st["case"]["hdr"]))
     tlc.cleanup(res)
     rng = random.Random(ctx.seed)
-    limit = 500 if ctx.tier == "quick" else 2500
+    limit = 500 if ctx.tier == "quick" else 1200      # (all records of a run are judged by TLC in one go: ~3 * 10^6 at most)
     if len(types) > limit:
         wide = [t for t in types if '"n": 9' in repr(t).replace("'", '"') or any('"n": %d' % n in repr(t).replace("'", '"') for n in (11, 12, 14, 15, 17, 23))]
         rest = [t for t in types if t not in wide]
